@@ -367,6 +367,12 @@ def _buffer(ctx: Ctx, c: Collector) -> None:
         else:
             cond = T.strip(loop[0][2])
             conj = list(cond[1]) if cond[0] == "and" else [cond]
+            # `while q: if not due: break; pop` -- the pop's own guards inside the loop belong to the condition
+            for gt in guard_terms(p.guards):
+                for x in (list(gt[1]) if gt[0] == "and" else [gt]):
+                    if T.contains((x,), q) and x not in conj:
+                        conj.append(x)
+            brk_ok = True
             due = ("cmp", "<=", ("idx", ("idx", q, T.const(0)), T.const(0)), step)
             nonempty = [x for x in conj if boolfn_leaf(x) == (q, True)]
             if due not in conj:
@@ -474,6 +480,17 @@ def _get_outputs(ctx: Ctx, c: Collector) -> None:
                 # pushed iff present: KeyError from the lookup skips the push
                 if not any(r == "body" for _, r in e.tries):
                     pr.append("a missing attribute in the reply is not tolerated (no try/except KeyError around the push)")
+    if adds:
+        # pushed iff present: nothing but "some output is connected" (the guard of get_data itself) may stand
+        # between a produced value and the destination's buffer
+        req = [T.guard_term(g) for g in aw[0].guards] if aw else []
+        # conditions of the whole normal path (the reply was accepted) are shared with the final `sim.data = data`
+        fin = [x for x in s.of_kind("store") if x.term[1] == ("attr", sim, "data")]
+        req += guard_terms(fin[-1].guards) if fin else []
+        extra = [x for x in guard_terms(adds[0].guards) if x not in req]
+        if extra:
+            pr.append("a produced value is only pushed when " + " and ".join(T.show(x)[:70] for x in extra) + ": every value that a connected attribute produces is due at its destination "
+                      "(a comparison with what the destination remembers is a comparison with a state that lags behind the values still in its buffer)")
     c.add("push", GETOUT, "push data[src] to (dest buffer, output_time + shift) iff present", VIOLATED if pr else DISCHARGED, "; ".join(pr), fi.loc)
 
 
